@@ -58,8 +58,9 @@ CLAIM = dict(
           "taint of the enclosing one; `global` / `nonlocal` statements and writes through free names. "
           "What it CANNOT see (stays with the dynamic checks: deep snapshots, fresh-interpreter comparison, defaults = "
           "literals): objects stored in an attribute of self / of a parameter in one method and written in another "
-          "(e.g. a kernel object keeping the machine it was given), aliases through dictionary KEYS, results of rig "
-          "FUNCTIONS that return (part of) their argument, callables held in variables (`kernel(...)`, `place(...)` "
+          "(e.g. a kernel object keeping the machine it was given), aliases through dictionary KEYS, results of "
+          "FUNCTIONS that return (part of) their argument (e.g. apply_same_chip_constraints returns "
+          "vertices_resources.copy(), whose inner dicts are the caller's), callables held in variables (`kernel(...)`, `place(...)` "
           "passed as parameter: resolved by name only), getattr with computed names / __dict__ / vars(), exec, C "
           "extensions (rig_c_sa, NumPy views: a slice of an array is treated as a copy), generators advanced by "
           "iteration, in-place operators hidden in methods of foreign classes, and augmented assignment on a bare name is "
